@@ -6,6 +6,7 @@ import (
 	"runtime"
 	"strings"
 	"sync"
+	"sync/atomic"
 	"testing"
 	"time"
 
@@ -24,6 +25,8 @@ type c20Round struct {
 type c20Case struct {
 	MaxSize int          `json:"maxsize"`
 	Progs   [][]c20Round `json:"progs"` // per goroutine: rounds of (burst of writes, then Wait)
+	Flood   int          `json:"flood,omitempty"`    // extra goroutines that write without pause until the programs are done (back-pressure: a full write queue)
+	StallUs []int        `json:"stall_us,omitempty"` // the harness holds the policy lock for these intervals while the programs run
 }
 
 func genC20(t *rapid.T) c20Case {
@@ -38,6 +41,10 @@ func genC20(t *rapid.T) c20Case {
 	})
 	for g := 0; g < G; g++ {
 		c.Progs = append(c.Progs, rapid.SliceOfN(rg, 1, 6).Draw(t, "rounds"))
+	}
+	if rapid.IntRange(0, 2).Draw(t, "pressure") == 0 {
+		c.Flood = rapid.SampledFrom([]int{1, 2, 4}).Draw(t, "flood")
+		c.StallUs = rapid.SliceOfN(rapid.SampledFrom([]int{50, 200, 1000}), 0, 4).Draw(t, "stalls")
 	}
 	return c
 }
@@ -139,7 +146,7 @@ func execC20(c c20Case, x *verifkit.Ctx) (fail *verifkit.Failure) {
 						report(verifkit.Failf("barrier/delete-not-applied", "goroutine %d round %d: Wait returned but the value %#x deleted before it has no removal notification yet", g, ri, v))
 					}
 				}
-				if G == 1 {
+				if G == 1 && c.Flood == 0 {
 					if l := s.Len(); l > c.MaxSize {
 						report(verifkit.Failf("barrier/evictions-not-done", "single client, round %d: Wait returned but Len is %d with MaxSize %d (unit costs): the evictions caused by the writes before Wait have not happened yet", ri, l, c.MaxSize))
 					}
@@ -194,6 +201,38 @@ func execC20(c c20Case, x *verifkit.Ctx) (fail *verifkit.Failure) {
 	close(start)
 	done := make(chan struct{})
 	go func() { wg.Wait(); close(done) }()
+	// back-pressure: writers that never pause keep the write queue full, and the harness stalls the
+	// maintenance goroutine by holding the policy lock, so Wait markers are sent into a full queue
+	var queueFull atomic.Bool
+	for f := 0; f < c.Flood; f++ {
+		f := f
+		go func() {
+			for i := 0; ; i++ {
+				select {
+				case <-done:
+					return
+				default:
+				}
+				s.Set(9_000_000+f*1_000_000+i%(4*c.MaxSize+64), int64(i), 1, 0)
+				if i%64 == 0 && len(s.writeChan) == cap(s.writeChan) {
+					queueFull.Store(true)
+				}
+			}
+		}()
+	}
+	if len(c.StallUs) > 0 {
+		go func() {
+			for _, us := range c.StallUs {
+				s.policyMu.Lock()
+				t0 := time.Now()
+				for time.Since(t0) < time.Duration(us)*time.Microsecond {
+					runtime.Gosched()
+				}
+				s.policyMu.Unlock()
+				time.Sleep(50 * time.Microsecond)
+			}
+		}()
+	}
 	select {
 	case <-done:
 	case <-time.After(20 * time.Second):
@@ -211,6 +250,8 @@ func execC20(c c20Case, x *verifkit.Ctx) (fail *verifkit.Failure) {
 	}
 	x.ClassIf(maxWaits >= 2, "waits-overlapped")
 	x.ClassIf(G == 1, "single-waiter")
+	x.ClassIf(c.Flood > 0, "write-back-pressure")
+	x.ClassIf(queueFull.Load() && maxWaits >= 2, "waits-overlapped-with-a-full-write-queue")
 	if maxWaits >= 2 {
 		x.NonTrivial()
 	}
@@ -220,7 +261,7 @@ func execC20(c c20Case, x *verifkit.Ctx) (fail *verifkit.Failure) {
 func TestVerifC20(t *testing.T) {
 	verifkit.Run(t, verifkit.Spec[c20Case]{
 		ID: "C20", Gen: genC20, Exec: execC20, Nondet: true,
-		Rule:        "C20: rapid draws MaxSize in {2,8,50,400} and 1..16 goroutines, each with 1..6 rounds of (burst of 0..300 Sets on its own key range - sizes around the 128-item batch boundary - and 0..3 Deletes, then Wait); right after each Wait the goroutine checks its own earlier writes under the policy lock: a Set's entry is tracked by the policy with its cost, or has left the map with its EVICTED call already delivered; a Delete's REMOVED call has been delivered; all Waits must return within 20 s; non-trivial = at least two Wait calls overlapped in time",
+		Rule:        "C20: rapid draws MaxSize in {2,8,50,400} and 1..16 goroutines, each with 1..6 rounds of (burst of 0..300 Sets on its own key range - sizes around the 128-item batch boundary - and 0..3 Deletes, then Wait); in a third of the cases 1..4 further goroutines write without pause and the harness stalls the maintenance goroutine (policy lock held 50..1000 us), so the markers are sent into a full write queue; right after each Wait the goroutine checks its own earlier writes under the policy lock: a Set's entry is tracked by the policy with its cost, or has left the map with its EVICTED call already delivered; a Delete's REMOVED call has been delivered; all Waits must return within 20 s; non-trivial = at least two Wait calls overlapped in time",
 		Assumptions: []string{"real goroutines; each goroutine owns a disjoint key range, so the fate of its writes is not disturbed by other writers (only by eviction)", "a hang is reported with goroutine stacks; the failure does not re-execute identically"},
 	})
 }
